@@ -58,7 +58,9 @@ func runC01(c *core.Ctx) {
 		c.Share(map[string]string{"R4.11": "R1.15", "R4.12": "R1.16"}, runC04) // flags come back as last written
 		c.Rule("R1.18", "the tiers are wired as the orchestrators assume: the accept loop hands the handler of its first constructor to the orchestrator as L1 and of its second as L2; main passes an L1 constructor built from --l1-sock (or the in-memory backend) and an L2 constructor built from --l2-sock, for both ports", 3)
 		runR118(c, "R1.18")
-		c.Share(map[string]string{"R16.4": "R1.17"}, runC16)                   // a set acknowledged with a chunk count the reader does not find is a miss where the map says hit
+		c.Share(map[string]string{"R16.4": "R1.17"}, runC16)
+		c.Share(map[string]string{"R8.11": "R1.19"}, runC08) // a get whose terminator is swallowed never completes for the client: a single map always answers END
+		c.Share(map[string]string{"R9.1": "R1.20"}, runC09)  // a tier handed TTL 0 keeps the item for ever: get hits where the map misses, add says exists                   // a set acknowledged with a chunk count the reader does not find is a miss where the map says hit
 		// necessary conditions shared with other properties (same obligations, this property's numbering)
 		c.Share(map[string]string{"R9.3": "R1.12"}, runC09) // a touch/set whose TTL lands in the wrong field changes when the map answers hit or miss
 		c.Share(map[string]string{"R8.5": "R1.13"}, runC08) // a reply left in the buffer is a reply the client does not receive
